@@ -53,6 +53,8 @@ static const double MEANS[2] = {0.35, -0.6};
 static const double SHIFT[3] = {100.5, -37.25, 12.75};
 
 static bool G_TGRID = false;   // point targets = nodes of a rotated DbGrid (set per case)
+static bool G_V2ZERO = false;  // measurement error variance of the second variable = 0 everywhere (exactness of the error-free variable)
+static bool G_TCOIN = false;   // second point target placed exactly on the first sample (set per case)
 struct Setup
 {
   Db* dbin = nullptr; Db* dbout = nullptr; Model* model = nullptr; ANeigh* neigh = nullptr;
@@ -127,7 +129,7 @@ static void build(Setup& S, const Value& cfg, const std::vector<int>& perm, cons
     {
       for (int d = 0; d < nd; d++) x[d][r] = FARC[ifar][d] + S.shift[d];
       ifar++;
-      for (int iv = 0; iv < S.nvar; iv++) { z[iv][r] = 3.3 + iv; v[iv][r] = 0.2; }
+      for (int iv = 0; iv < S.nvar; iv++) { z[iv][r] = 3.3 + iv; v[iv][r] = (G_V2ZERO && iv == 1) ? 0. : 0.2; }
       f[r] = 1.234;
     }
     else
@@ -138,7 +140,7 @@ static void build(Setup& S, const Value& cfg, const std::vector<int>& perm, cons
         bool def = cfg.at("def")[s][iv].boolean();
         double val = zover ? (*zover)[iv][s] : SZ[iv][s];
         z[iv][r] = def ? val : TEST;
-        v[iv][r] = SV[iv][s];
+        v[iv][r] = (G_V2ZERO && iv == 1) ? 0. : SV[iv][s];
       }
       f[r] = SF[s];
     }
@@ -198,7 +200,7 @@ static void build(Setup& S, const Value& cfg, const std::vector<int>& perm, cons
     VectorDouble t; VectorString tn, tl;
     for (int d = 0; d < nd; d++)
     {
-      t.push_back(TC[0][d] + S.shift[d]); t.push_back(TC[1][d] + S.shift[d]);
+      t.push_back(TC[0][d] + S.shift[d]); t.push_back((G_TCOIN ? SC[d][0] : TC[1][d]) + S.shift[d]);
       tn.push_back("x" + std::to_string(d + 1)); tl.push_back("x" + std::to_string(d + 1));
     }
     if (S.drift == "EXT") { t.push_back(extdrift(TC[0], nd)); t.push_back(extdrift(TC[1], nd)); tn.push_back("ext"); tl.push_back("f1"); }
@@ -536,36 +538,48 @@ static Value exact(const Value& cs, const std::string& neighKind, int imodel)
   std::vector<int> id(ns); for (int i = 0; i < ns; i++) id[i] = i;
   Setup S; S.neighKind = neighKind; S.imodel = imodel;
   build(S, cfg, id);
-  // targets = the data locations themselves
+  // targets = the data locations themselves; in a moving neighbourhood (constant mean) also the two far samples, first and
+  // last: consecutive targets then have neighbourhoods of different sizes (1 sample / the cluster, possibly heterotopic)
+  bool withFar = S.nfar == 2 && (S.drift == "SK" || S.drift == "OK");
+  int nt = ns + (withFar ? 2 : 0);
   VectorDouble t; VectorString tn, tl;
   for (int d = 0; d < S.ndim; d++)
   {
+    if (withFar) t.push_back(FARC[0][d]);
     for (int s = 0; s < ns; s++) t.push_back(SC[d][s]);
+    if (withFar) t.push_back(FARC[1][d]);
     tn.push_back("x" + std::to_string(d + 1)); tl.push_back("x" + std::to_string(d + 1));
   }
   if (S.drift == "EXT") { for (int s = 0; s < ns; s++) t.push_back(SF[s]); tn.push_back("ext"); tl.push_back("f1"); }
-  Db* out = Db::createFromSamples(ns, ELoadBy::COLUMN, t, tn, tl, false);
+  Db* out = Db::createFromSamples(nt, ELoadBy::COLUMN, t, tn, tl, false);
   int err = kriging(S.dbin, out, S.model, S.neigh, EKrigOpt::POINT, true, true, false);
   o["err"] = Value(err);
-  double de = 0, sdm = 0, sdall = 0, c00max = 0; int n = 0; bool bounded = true;
+  double de = 0, sdm = 0, sdall = 0, c00max = 0; int n = 0; bool bounded = true, finite = true;
   if (err == 0)
     for (int v = 0; v < nvar; v++)
     {
       SpacePoint p(VectorDouble(S.ndim, 0.));
       double c00 = S.model->eval(p, p, v, v);
       c00max = std::max(c00max, c00);
-      for (int s = 0; s < ns; s++)
+      bool errfree = !S.verr || (G_V2ZERO && v == 1);     // the data of this variable carry no measurement error
+      for (int it = 0; it < nt; it++)
       {
-        double e = out->getValue("Kriging.z" + std::to_string(v + 1) + ".estim", s);
-        double sd = out->getValue("Kriging.z" + std::to_string(v + 1) + ".stdev", s);
+        int s = withFar ? it - 1 : it;                     // -1 / ns: the far samples
+        bool far = s < 0 || s >= ns;
+        double e = out->getValue("Kriging.z" + std::to_string(v + 1) + ".estim", it);
+        double sd = out->getValue("Kriging.z" + std::to_string(v + 1) + ".stdev", it);
+        if (!std::isfinite(e) || !std::isfinite(sd) || sd < 0 || FFFF(e) || FFFF(sd)) finite = false;
         if (S.drift == "SK" && sd * sd > c00 * (1 + 1e-9)) bounded = false;
         sdall = std::max(sdall, sd);
-        if (!cfg.at("def")[s][v].boolean()) continue;
+        if (!errfree) continue;
+        if (!far && !cfg.at("def")[s][v].boolean()) continue;
+        double zref = far ? 3.3 + v : SZ[v][s];
         n++;
-        de = std::max(de, std::fabs(e - SZ[v][s]) / std::max(1., std::fabs(SZ[v][s])));
+        de = std::max(de, std::fabs(e - zref) / std::max(1., std::fabs(zref)));
         sdm = std::max(sdm, sd / std::sqrt(c00));
       }
     }
+  o["finite"] = Value(finite); o["nfar"] = Value(withFar ? 2 : 0);
   o["n"] = Value(n); o["exact_est"] = Value(de); o["exact_sd_rel"] = Value(sdm); o["sk_bounded"] = Value(bounded);
   delete out;
   return o;
@@ -663,11 +677,13 @@ int main(int argc, char** argv)
     {
       std::vector<int> perm(ns);
       for (int i = 0; i < ns; i++) perm[i] = run.at("perm").i() == 0 ? i : ns - 1 - i;
+      G_TCOIN = run.getb("tcoin", false);
       rec["obs"] = analyse(cs, nk, im, run.at("target").i(), perm, run.getb("tgrid", false));
+      G_TCOIN = false;
     }
     else if (mode == "meta") { G_TGRID = run.getb("tgrid", false); rec["obs"] = meta(cs, nk, im); G_TGRID = false; }
     else if (mode == "cluster") rec["obs"] = clusterCase(cs, im);
-    else if (mode == "exact") rec["obs"] = exact(cs, nk, im);
+    else if (mode == "exact") { G_V2ZERO = run.getb("v2zero", false); rec["obs"] = exact(cs, nk, im); G_V2ZERO = false; }
     fprintf(fo, "%s\n", vj::dump(rec).c_str());
   }
   fclose(fo);
